@@ -585,6 +585,13 @@ func findHeaderOffset(data io.ReaderAt, size int64) (int64, error) {
 }
 
 func (r *Reader) scannerFrom(pos int64, canObjStm bool) (*scanner, error) {
+	if pos < 0 {
+		// offsets come from the file (/XRefStm, xref entries plus the
+		// header offset) and may be negative or overflow
+		return nil, &MalformedFileError{
+			Err: fmt.Errorf("file position %d out of range", pos),
+		}
+	}
 	getInt := safeGetInteger(lengthGetter{r}, canObjStm)
 	sr := io.NewSectionReader(r.r, pos, r.size-pos)
 	s := newScanner(sr, getInt, r.enc)
